@@ -215,6 +215,8 @@ DANGLE = [
     ('default_scene', rb'(<instance_visual_scene[^>]*url="#)[^"]*"', 'DaeBrokenRefError'),
     ('surface_image', rb'(<init_from>)img\d+(</init_from>)', 'DaeBrokenRefError'),
     ('sampler_surface', rb'(<source>)surf\d+(</source>)', 'DaeBrokenRefError'),
+    # <texture texture="..."> names a sampler of the effect (shading parameters and bump maps alike)
+    ('texture_sampler', rb'(<texture[^>]*texture=")[^"]*"', 'DaeBrokenRefError'),
     # a reference into ANOTHER document whose fragment happens to be a local id: not a reference to the local object
     ('external_geometry', rb'(<instance_geometry[^>]*url=")#', 'DaeMalformedError|DaeBrokenRefError'),
     ('external_material', rb'(<instance_material[^>]*target=")#', 'DaeMalformedError|DaeBrokenRefError'),
@@ -266,13 +268,15 @@ def check_dangling(data, kind, pattern, expect):
         collada.Collada(io.BytesIO(bad))
         return ('dangling-accepted:' + kind, 'a dangling %s reference loads without error' % kind)
     except Exception as e:
-        if type(e).__name__ not in expect.split('|'):
+        from props import c08
+        if c08.kname(e) not in expect.split('|'):
             return ('dangling-wrong-error:' + kind, 'a dangling %s reference raises %s instead of %s' % (kind, type(e).__name__, expect))
     try:
         d = collada.Collada(io.BytesIO(bad), ignore=[DaeError])
     except Exception as e:
         return ('dangling-not-ignorable:' + kind, 'a dangling %s reference cannot be ignored: %s' % (kind, type(e).__name__))
-    if not set(expect.split('|')) & set(type(e).__name__ for e in d.errors):
+    from props import c08
+    if not set(expect.split('|')) & set(c08.kname(e) for e in d.errors):
         return ('dangling-not-recorded:' + kind, 'a dangling %s reference was not recorded as %s' % (kind, expect))
     pr = identity_check(d)
     if pr:
